@@ -26,7 +26,20 @@ for f in sorted(glob.glob(REPO + "/tests/comparison/*.txt")):
             for l in hexf[0].decode().split():
                 n = int(l[1:3], 16); t = int(l[7:9], 16)
                 if t == 0: data += bytes.fromhex(l[9:9 + 2 * n])
-            keep.append([ins, data.hex()])
+            # position independent? (same bytes when assembled at another address)
+            pi = 1
+            for org in (0x40, 0x7f30, 0x2a10):
+                src2 = (".%s\n.org 0x%x\n  %s\n" % (cpu, org, ins)).encode()
+                o2 = ex.call(build_request(MODE_ASM, ["naken_asm", "-o", "o.hex", "a.asm"], {"/sim/w/a.asm": src2}))
+                data2 = None
+                if o2.kind() == "exit" and o2.status == 0:
+                    data2 = b""
+                    for l in [d for p, k, d in o2.delta if p.endswith("o.hex")][0].decode().split():
+                        n = int(l[1:3], 16); t = int(l[7:9], 16)
+                        if t == 0: data2 += bytes.fromhex(l[9:9 + 2 * n])
+                if data2 != data:
+                    pi = 0
+            keep.append([ins, data.hex(), pi])
     out[cpu] = keep
     print(cpu, len(keep), file=sys.stderr)
 json.dump(out, open(os.path.join(VERIF, "corpus", "instr.json"), "w"), indent=0, sort_keys=True)
